@@ -286,16 +286,9 @@ func c01Pairs(c *Ctx) error {
 		for _, x := range rel {
 			relKinds[strings.SplitN(x, ":", 2)[0]] = true
 		}
-<<<<<<< HEAD
-		c.Out.Emit(&lib.Case{Class: "pair/" + comp.String(), Nontrivial: len(rel) >= 2 || (len(rel) == 1 && rel[0] != "identical"),
-			Input: map[string]interface{}{"old": old.Summary(), "new": nw.Summary(), "relations": rel, "compression": comp.String(), "subseed": i},
-			Obs:   obs, Oracle: oracle})
-		removeAll(base)
-=======
 		if err := runFreshCase(c, fmt.Sprintf("c01-pair-%d", i), old, nw, freshOpts{class: "pair/" + comps[0].String(), comps: comps, rel: rel, subkey: fmt.Sprint(i)}); err != nil {
 			return err
 		}
->>>>>>> ag-patcher
 	}
 	return nil
 }
